@@ -756,8 +756,8 @@ func TestC13Structured(t *testing.T) {
 				vn := w.ms.vn
 				w.V.Rtr.VerifExpireHello(w.P.IP())
 				_, _ = w.V.Rtr.HelloPing.Send(w.P.IP())
-				both := c.Chance("own-hello.peer-too", 1, 2)
-				peerFirst := both && c.Bool("own-hello.peer-before-seeing-the-request")
+				both := c.Chance("own-hello.peer-too", 2, 3)
+				peerFirst := both && c.Chance("own-hello.peer-before-seeing-the-request", 1, 3)
 				if peerFirst {
 					// ... and so does the peer, before it has seen the victim's request.
 					w.P.Rtr.VerifExpireHello(w.V.IP())
@@ -795,7 +795,7 @@ func TestC13Structured(t *testing.T) {
 					// Two of the peer's messages (its own request, its answer) reach the
 					// victim together and are handled by two workers, one of them held
 					// at a generated schedule point.
-					if at := core.OneOf(c, "own-hello.point", "", "instance.Identity", "instance.State", "instance.Config"); at == "" {
+					if at := core.OneOf(c, "own-hello.point", "", "instance.Identity", "instance.Identity", "instance.Identity", "instance.State", "instance.State", "instance.Config"); at == "" {
 						w.V.Gate.Arm(c.Int("own-hello.any-call", 0, 12))
 					} else {
 						w.V.Gate.ArmAt(at, c.Int("own-hello.call", 0, 4))
